@@ -1152,8 +1152,13 @@ def oracle(sim: Sim, plan: dict) -> list[dict]:
         root = root_of(tfs[t["tf"]]["ctx"])
         x = exits.get(root)
         surfaced = x is not None and (exc in leaves(x[5]["exc"]) or _sub(exc, x[5]["exc"]))
+        tds_ = (t.get("task_td_start") or [None])[0]
+        tde_ = (t.get("task_td_end") or [None])[0]
+        # (the exception reaches the handler only once the task's own context has been torn
+        # down; a run that was cancelled and over before that never got there)
+        cut_short = tds_ is not None and (tde_ is None or (x is not None and x[0] < tde_[0]))
         if handler and is_exc:
-            if len(calls) != 1:
+            if len(calls) != 1 and not (cut_short and not calls):
                 v("C09.handler", "call_count", f"exception handler called {len(calls)} times for {exc} raised by task {tid}")
             truthy = handler in ("true", "one")
             if truthy and surfaced:
